@@ -372,12 +372,30 @@ func genRunStructured(t *rapid.T, w int, maxVals int) []uint8 {
 	var out []uint8
 	nruns := rapid.IntRange(0, 24).Draw(t, "nruns")
 	for i := 0; i < nruns && len(out) < maxVals; i++ {
+		if len(out) > 100000 {
+			break
+		}
 		v := uint8(rapid.IntRange(0, 1<<uint(w)-1).Draw(t, "v"))
 		var l int
 		if rapid.IntRange(0, 3).Draw(t, "lenKind") == 0 {
 			l = rapid.IntRange(1, 40).Draw(t, "len")
 		} else {
 			l = rapid.SampledFrom(runLens).Draw(t, "len")
+		}
+		if b := rapid.IntRange(0, 99).Draw(t, "longNoise?"); b >= 40 && b < 44 {
+			// a long stretch of irregular levels expanded from one word: bit-packed bodies of tens of KiB
+			n := rapid.IntRange(30000, 42000).Draw(t, "noiseLen")
+			if w == 4 && b < 42 {
+				n = rapid.IntRange(131500, 140000).Draw(t, "hugeNoiseLen") // body beyond 64 KiB
+			}
+			x := rapid.Uint64().Draw(t, "noiseSeed") | 1
+			for j := 0; j < n; j++ {
+				x ^= x << 13
+				x ^= x >> 7
+				x ^= x << 17
+				out = append(out, uint8(x>>32)&uint8(1<<uint(w)-1))
+			}
+			continue
 		}
 		if rapid.IntRange(0, 4).Draw(t, "noise") == 0 {
 			// a stretch of non-repeating values
@@ -390,7 +408,7 @@ func genRunStructured(t *rapid.T, w int, maxVals int) []uint8 {
 			out = append(out, v)
 		}
 	}
-	if len(out) > maxVals {
+	if len(out) > maxVals && len(out) < 131000 {
 		out = out[:maxVals]
 	}
 	return out
